@@ -12,6 +12,20 @@ strength={
 "C20":"scenario mixes hang2/hang3 (several workers hanging in the same timeout window) and kill bursts; the pool floor (--init-procs restored after exits, within a bounded number of samples after faults stop) is monitored next to the --max-procs ceiling",
 }
 first_missed=set(strength)
+strength3={
+"C02":"(same change as C12-r3; C02 caught it as it stood)",
+"C03":"the renderer writes line breaks inside text values as real line breaks of the file (multi-line literals in any position)",
+"C04":"names may begin with 注 (my generators had excluded them)",
+"C05":"cross-check in the worker: a text the parser accepts must tokenise to its very end with the lexer alone",
+"C06":"caught by C15 (specials sibling-readonly: a method of an imported module assigns to a sibling's name); C06 itself has no multi-module programs",
+"C08":"C08 family obj/failed-ctor-handled (a failing 新建 handled inside a call, then 其 in the calling method); C09 got raise kinds ctor-arity / ctor-throw / ctor-fault",
+"C10":"C10 API driver: dup / twin steps and scripted histories alternating structural updates between a collection and its copy (sizes 0..9)",
+"C11":"srvharness headers mode: five request / response shapes incl. names that differ only in letter case",
+"C12":"C12 observers iterate with 继续循环 / 结束循环 and read 集#{序+0} in every pass",
+"C15":"C15 variant lib-everywhere: every module of the graph imports the same library",
+"C16":"not confirmed: on the current tree the demonstration passes with the change (its trigger needs a type defined inside a method body to sit in the module's export table, which fix 563e80b removed)",
+"C20":"not a violation on the current tree: the read deadline of fix dadc504 also bounds the body read, the worker is no longer pinned (the demonstration now fails without the change because it expects the worker to be replaced rather than to answer with an error); C20 got the mix 'stall' for such requests",
+}
 strength2={
 "C06":"C06 fixed families now leave a body through its handler in 12 ways (抛出, ÷0, undefined name, index, type error, arity errors of method / object method / constructor, rejected assignment / declaration) x {directly, in nested blocks, in a loop, one call deeper} and probe callee names, redeclaration in the caller's block and names of blocks that end afterwards (C09's quiescent scope-depth invariant caught it unchanged)",
 "C10":"C10 got an input-variable driver (texts without any statement: line breaks, comments, imports only; every right-hand-side kind); the same texts were added to C05's corpus",
@@ -68,6 +82,15 @@ for d in sorted(os.listdir(root)):
         m['strengthening']=strength2[prop]
     elif rnd==2:
         m['missed_by_first_version']=False
+    elif rnd==3 and prop in strength3:
+        m['missed_by_first_version']=prop not in ('C02',)
+        m['strengthening']=strength3[prop]
+    elif rnd==3:
+        m['missed_by_first_version']=False
+    if os.path.exists(p+'/hunt_findings.json'):
+        m['hunt_findings_file']='hunt_findings.json (candidates reported by the same sub-agent for the unchanged tree; see DESIGN 12.8 for what became of each)'
+    if os.path.exists(p+'/patch_as_written.diff'):
+        m['note_patch']='patch.diff is the change ported to the current HEAD (a later fix rewrote its context); patch_as_written.diff is the sub-agent\'s original'
     m.update(extra)
     json.dump(m,open(p+'/meta.json','w'),ensure_ascii=False,indent=1)
     print(d, {k:(x['detected']) for k,x in rechecks.items()})
